@@ -134,6 +134,33 @@ def fit_model(inp):
         return {"got": dens, "expected": "density at current parameters", "witness_class": "eval_density"}
 
 
+def gen_sig(tier, seed):
+    for order in ("same", "swapped", "renamed", "extra"):
+        yield {"order": order}
+
+
+@R.oracle("antiderivative_must_have_the_density_signature", gen_sig, obligation="HistParametricModel.__init__")
+def antiderivative_signature(inp):
+    """an antiderivative is called positionally with the density's parameters: one whose parameters come in another order (or have other names) must be
+    refused - if it is accepted, the bin contents are integrals of something else"""
+    def dens(x, mu=0.3, sigma=1.2):
+        return np.exp(-0.5 * ((x - mu) / sigma) ** 2) / np.sqrt(2 * np.pi) / sigma
+    from math import erf
+    cdf = lambda x, mu, sigma: 0.5 * (1 + erf((x - mu) / (sigma * np.sqrt(2))))
+    anti = {"same": lambda x, mu, sigma: cdf(x, mu, sigma), "swapped": lambda x, sigma, mu: cdf(x, mu, sigma), "renamed": lambda x, m, s: cdf(x, m, s), "extra": lambda x, mu, sigma, c: cdf(x, mu, sigma)}[inp["order"]]
+    edges = [-2.0, -1.0, 0.0, 0.7, 2.5]
+    exact = np.array([cdf(b, 0.3, 1.2) - cdf(a, 0.3, 1.2) for a, b in zip(edges[:-1], edges[1:])])
+    try:
+        m = HPM(4, (edges[0], edges[-1]), dens, [0.3, 1.2], bin_edges=edges, bin_evaluation=np.vectorize(anti))
+        got = np.asarray(m.data, dtype=float)
+    except (ValueError, TypeError):
+        if inp["order"] == "same":
+            return {"got": "rejected", "expected": "accepted", "witness_class": "signature:same-order-rejected"}
+        return None
+    if not close(got, exact, 1e-9):
+        return {"got": got, "expected": exact, "witness_class": "signature:" + inp["order"] + "-accepted-and-wrong"}
+
+
 def gen_scalar(tier, seed):
     yield {"c": 0.25}
 
